@@ -719,9 +719,14 @@ public:
                    "time line, task tables, queues, restart manager";
     comp["stub"] = "libgomp (detsim fibers), rdtsc, MPI disabled";
     cov["components"] = comp;
-    cov["fault_kinds"] = "preemption at every AtomicValue operation and at "
-                         "every task start (policies uniform/burst/pct/rr), "
-                         "task stealing";
+    cov["fault_kinds"] = "preemption at every AtomicValue operation, at "
+                         "every task start and (60 % of the runs) at every "
+                         "task / packet event (policies uniform/burst/pct/rr), "
+                         "task stealing; C09: stop by step count / stop file / "
+                         "simulated wall-clock jump / SIGINT and restart; C14: "
+                         "process death before / after / in the middle of a "
+                         "numbered file operation of a restart dump, restart, "
+                         "second death";
     assumptions.push("sequential consistency at the granularity of "
                      "AtomicValue operations");
     if (prop == "C10")
